@@ -146,8 +146,11 @@ func signedRequest(sk, blindKey *ecdsa.PrivateKey, reqKeyEnc, nameKeyID, ct []by
 	return type3.RateLimitedTokenRequest{RequestKey: reqKeyEnc, NameKeyID: nameKeyID, EncryptedTokenRequest: ct, Signature: sig}
 }
 
-func newT3Client(r *Rng) *t3Client {
-	c := &t3Client{secret: r.Bytes(48), blind: r.Bytes(48)}
+func newT3Client(r *Rng) *t3Client { return newT3ClientBlind(r, r.Bytes(48)) }
+
+// newT3ClientBlind: the request blind is opaque bytes to every party (it is only ever hashed into the blinding factor)
+func newT3ClientBlind(r *Rng, blind []byte) *t3Client {
+	c := &t3Client{secret: r.Bytes(48), blind: blind}
 	c.sk, _ = ecdsa.CreateKey(elliptic.P384(), c.secret)
 	c.pubEnc = elliptic.MarshalCompressed(elliptic.P384(), c.sk.X, c.sk.Y)
 	c.blindKey, _ = ecdsa.CreateKey(elliptic.P384(), c.blind)
@@ -190,7 +193,19 @@ func refIndex(c *t3Client, k *ecdsa.PrivateKey) []byte {
 func newC09World(r *Rng, nClients, nKeys, nAnons int) *c09World {
 	w := &c09World{blinded: map[[2]int][]byte{}, idxOrd: map[string]int{}, idxOf: map[[2]int]int{}, anonOrd: map[string]int{}, clientOf: map[string]int{}}
 	for i := 0; i < nClients; i++ {
-		c := newT3Client(r)
+		// request blinds of every shape a client may pick: random, unreduced (all ones), longer than a scalar, zero, empty
+		blind := r.Bytes(48)
+		switch i % 6 {
+		case 1:
+			blind = bytes.Repeat([]byte{0xff}, 48)
+		case 2:
+			blind = r.Bytes(49 + r.IntN(40))
+		case 3:
+			blind = []byte{}
+		case 4:
+			blind = make([]byte, 48)
+		}
+		c := newT3ClientBlind(r, blind)
 		w.clients = append(w.clients, c)
 		w.clientOf[hex.EncodeToString(c.pubEnc)] = i
 	}
